@@ -7,6 +7,7 @@ known_findings.json; exit 2: the analysis itself could not complete (ANALYSIS-ER
 """
 import importlib
 import json
+import time
 import os
 import sys
 import traceback
@@ -54,7 +55,18 @@ def main(argv):
         import sa.decide
         if tier == "thorough" and "VERIF_DECISION_SECONDS" not in os.environ:
             sa.decide.DECISION_SECONDS = 180.0
-        mod.run(w, rep, tier)
+        from sa.poly import CFG, BudgetExceeded
+        budget_s = float(os.environ.get("VERIF_BUDGET_SECONDS", "600" if tier == "quick" else "5400"))
+        CFG.budget = time.process_time() + budget_s
+        try:
+            mod.run(w, rep, tier)
+        except BudgetExceeded:
+            # the clean tree needs well under a tenth of this; a program that makes the value numbers explode gets no verdict
+            # on what was not reached, the findings made so far stand
+            rep.rule("budget", "CPU-time budget of the whole check (%d s, VERIF_BUDGET_SECONDS)" % budget_s)
+            rep.incomplete("budget", "all rules of %s are evaluated within the budget" % prop, "budget exhausted while evaluating the rules: the remaining obligations were not reached")
+        finally:
+            CFG.budget = None
         rep.analysed["interpreter_calls"] = w.it.calls
         rep.analysed["interpreter_steps"] = w.it.steps
         from sa.decide import STATS
